@@ -90,10 +90,24 @@ def gen_pair(rnd, tier, lcs):
     pmax, hmax = (10, 14) if big else (8, 10)
     if lcs:
         pmax, hmax = (8, 9) if big else (6, 7)
-    kind = rnd.choice(['gnp', 'gnp', 'tree', 'forest', 'family', 'family', 'family', 'simple', 'symmetrised', 'symmetrised'])
+    kind = rnd.choice(['gnp', 'gnp', 'tree', 'forest', 'family', 'family', 'family', 'simple', 'symmetrised', 'symmetrised', 'regular', 'regular'])
     if kind == 'gnp':
         n = rnd.randint(2, pmax - 1)
         SG = nx.gnp_random_graph(n, rnd.choice([.3, .5, .7]), seed=rnd.randrange(10 ** 6))
+    elif kind == 'regular':
+        # regular / vertex-transitive patterns: colour refinement tells nothing apart, the automorphism search has to couple nodes
+        # explicitly over several levels, and its pruning is exercised in every numbering the relabelling below produces
+        pick = rnd.choice(['cube', 'cube', 'K33', 'prism', 'octahedron', 'moebius8', 'petersen', 'reg3-8', 'reg3-10', 'reg3-6', 'reg4-8'])
+        SG = {'cube': lambda: nx.hypercube_graph(3), 'K33': lambda: nx.complete_bipartite_graph(3, 3),
+              'prism': lambda: nx.circular_ladder_graph(3), 'octahedron': nx.octahedral_graph,
+              'moebius8': lambda: nx.circulant_graph(8, [1, 4]), 'petersen': nx.petersen_graph,
+              'reg3-8': lambda: nx.random_regular_graph(3, 8, seed=rnd.randrange(10 ** 6)),
+              'reg3-10': lambda: nx.random_regular_graph(3, 10, seed=rnd.randrange(10 ** 6)),
+              'reg3-6': lambda: nx.random_regular_graph(3, 6, seed=rnd.randrange(10 ** 6)),
+              'reg4-8': lambda: nx.random_regular_graph(4, 8, seed=rnd.randrange(10 ** 6))}[pick]()
+        if len(SG) > pmax:
+            SG = nx.hypercube_graph(3) if pmax >= 8 else nx.octahedral_graph()
+        kind = 'regular:' + pick
     elif kind == 'symmetrised':
         # a random graph united with its image under a random involution: dense, irregular, with a non-trivial automorphism
         # group (the class of graphs on which the symmetry analysis once accepted permutations that are no automorphisms)
